@@ -3,7 +3,8 @@
 package db
 
 // C04 for the bolt-backed metadata store: db.NewReader + full metadata.Reader walk + fs/reader on
-// top of it, every input in a crash-isolated child (see internal/verifc04).
+// top of it, every input in a crash-isolated child (see internal/verifc04).  Only the exported
+// NewReader and the metadata.Reader interface are used.
 
 import (
 	"bytes"
@@ -45,9 +46,10 @@ func verifC04Run(in *verifc04.Input, rec *verifc04.Rec) {
 		if err != nil {
 			return err
 		}
-		// the TOC entries are loaded by a background goroutine; its verdict belongs to opening
-		err = mr.(*reader).waitInit()
-		rec.Settle() // a panic of that goroutine releases waitInit through the deferred Done
+		// The TOC entries are loaded by a background goroutine; its verdict belongs to opening.  Every
+		// query of a node other than the root waits for it and hands its error on (exported API only).
+		err = mr.ForeachChild(mr.RootID(), func(string, uint32, os.FileMode) bool { return false })
+		rec.Settle() // a panic of that goroutine releases the waiters through the deferred Done
 		return err
 	})
 	if cl != "ok" {
@@ -59,9 +61,14 @@ func verifC04Run(in *verifc04.Input, rec *verifc04.Rec) {
 	var regs []uint32
 	rec.Try("db.walk", func() error {
 		regs = verifc04.WalkMetadata("db", mr, rec)
-		mr.(*reader).NumOfNodes()
-		for _, id := range regs {
-			mr.(*reader).NumOfChunks(id)
+		// diagnostics API of the store, when it has them (not part of metadata.Reader)
+		if n, ok := mr.(interface{ NumOfNodes() (int, error) }); ok {
+			n.NumOfNodes()
+		}
+		if n, ok := mr.(interface{ NumOfChunks(uint32) (int, error) }); ok {
+			for _, id := range regs {
+				n.NumOfChunks(id)
+			}
 		}
 		return nil
 	})
